@@ -48,7 +48,11 @@ def trickle_history(rng, n):
                 ops.append([rng.choice([0, 1000, 3_000_000]), "insert", "ghost", storegen.rand_ev(rng)])
                 g.nrefs += 1
     # the process's local time zone must not matter (datetime.now() is naive local time)
-    return {"lazy": True, "ops": ops, "tz": rng.choice([None, None, "America/New_York", "Asia/Tokyo", "UTC"])}
+    case = {"lazy": True, "ops": ops, "tz": rng.choice([None, None, "America/New_York", "Asia/Tokyo", "UTC"])}
+    if rng.random() < 0.25:
+        # another store of the same process (another database file) is written to right before some of the operations
+        case["neighbour"] = sorted(rng.sample(range(len(ops)), min(len(ops), rng.randint(1, 8))))
+    return case
 
 
 class C18(C06):
